@@ -75,6 +75,7 @@ ClauseProp ==
     nocopy_exact   |-> {"C14"},
     nocopy_follows |-> {"C14"},
     recheck_stable |-> {"C06"},
+    mem_crash      |-> {"C06"},
     rt_ok          |-> {"C01"},
     rt_n           |-> {"C01"},
     rt_val         |-> {"C01"} ]
